@@ -8,6 +8,7 @@ registry objects: the three are threaded as state (`loop_state`) and returned. A
 GROUP = {
     'name': 'UnitsInit',
     'imports': ['Cellml.Tie.UnitsView'],
+    'header': 'open Cellml.Tie.PUnits',
     'functions': [
         {'file': 'cellmlmanip/units.py', 'func': 'UnitStore.__init__', 'lean_name': 'init',
          'params': ['self', 'store', 'next_id', 'regs'],
